@@ -9,6 +9,7 @@ PEST2JSON = None
 def ensure_pest2json():
     global PEST2JSON
     if PEST2JSON is None:
+        famgen.sync_workspace()
         p, b = build_bin("pest2json")
         if p.returncode != 0:
             raise ToolError("pest2json build failed:\n" + (p.stdout or "")[-3000:])
